@@ -57,6 +57,7 @@ func getSwapOutReceiverStates() States {
 				Event_OnFeeInvoicePaid: State_SwapOutReceiver_BroadcastOpeningTx,
 				Event_OnCancelReceived: State_SwapCanceled,
 				Event_ActionFailed:     State_SendCancel,
+				Event_OnTimeout:        State_SendCancel,
 			},
 			FailOnrecover: true,
 		},
